@@ -17,9 +17,19 @@ var verifForceOK = false
 // behave again and the windows have passed, a request succeeds normally.
 func VerifC03Faults(strategy, features, k int) {
 	lb, bs := verifFullLB(strategy, 2, features)
+	// a slow health probe may be in flight across the faults (hang before headers on the health endpoint)
+	probeInFlight := verifrt.Bool("slowProbeInFlight") && lb.IsBackendHealthy(bs[0])
 	for i := 0; i < k; i++ {
 		if i > 0 && verifrt.Bool("timePasses") {
 			verifrt.Advance(time.Duration(verifrt.IntRange("dt", 1, 1<<36)))
+		}
+		if probeInFlight && verifrt.Bool("probeCompletesNow") {
+			probeInFlight = false
+			if verifrt.Bool("probeOK") {
+				lb.processHealthCheckResponse(bs[0], &http.Response{StatusCode: http.StatusOK})
+			} else {
+				lb.handleHealthCheckFailure(bs[0], verifProbeErr)
+			}
 		}
 		rec := verifNewRecorder()
 		_, crashed := verifServe(lb, rec, rec.finish, verifRequest("10.1.2.3:4711"))
